@@ -83,7 +83,16 @@ type Ctx struct {
 	WriteBase bool
 	Propose   string
 	VerifyKnown bool // replay known findings too and compare their input class
+	Covers func(name string) bool
 	mu        sync.Mutex
+}
+
+// tierCovers: is the obligation within the scope of this tier? (quick runs cover a subset of the baseline's names)
+func (c *Ctx) tierCovers(name string) bool {
+	if c.Covers != nil {
+		return c.Covers(name)
+	}
+	return true
 }
 
 func (c *Ctx) AddItem(it *Item) {
@@ -326,6 +335,32 @@ func finish(c *Ctx, pd *propDef) int {
 		default:
 			needReplay = append(needReplay, it) // new obligation
 		}
+	}
+	// contract obligations (not sweep obligations) that were discharged on the pinned tree but are no
+	// longer generated: the contract does not apply to the code any more
+	present := map[string]bool{}
+	for _, it := range c.Items {
+		present[it.Name] = true
+	}
+	var vanished []string
+	for name, be := range c.Baseline {
+		if be.Status != "discharged" || present[name] || !c.tierCovers(name) {
+			continue
+		}
+		if i := strings.Index(name, "/"); i >= 0 {
+			rest := name[i+1:]
+			for _, k := range []string{"post@", "at-eval@", "pre@", "trace@", "arity@", "inv-init@", "inv-keep@", "frame:result@", "lemma@", "byte@"} {
+				if strings.HasPrefix(rest, k) {
+					vanished = append(vanished, name)
+				}
+			}
+		}
+	}
+	sort.Strings(vanished)
+	for _, name := range vanished {
+		it := &Item{Name: name, Kind: "vanished", Status: "failed", Root: name[:strings.Index(name, "/")], Model: "obligation was discharged on the pinned tree and is no longer generated (function, clause or program point gone)"}
+		regressed[name] = "contract obligation no longer generated"
+		needReplay = append(needReplay, it)
 	}
 	var outcomes map[string]*ReplayOutcome
 	if len(needReplay)+len(knownItems) > 0 && c.Replayer != nil {
